@@ -89,4 +89,5 @@ def open_database(
         )
     else:
         Base.metadata.create_all(engine)
+        migrator.stamp(session)
     return session
